@@ -106,6 +106,33 @@ fn for_each_expr_mut(p: &mut Program, f: &mut dyn FnMut(&mut E)) {
     }
 }
 
+/// A call of a built-in with a random number (0..5) of arguments of random kinds - located names, literals,
+/// keywords - derived from `bits`: wrong arities with every mix of located and unlocated operands.
+fn random_builtin_call(bits: u64, foreign: &str) -> String {
+    let mut x = bits | 1;
+    let mut next = |n: u64| {
+        x = x.wrapping_mul(6364136223846793005).wrapping_add(1442695040888963407);
+        (x >> 33) % n
+    };
+    let name = ["tip_slot", "slot_to_time", "time_to_slot", "min_utxo", "concat", "Ada", "AnyAsset"][next(7) as usize];
+    let n = next(6);
+    let args: Vec<String> = (0..n)
+        .map(|_| match next(10) {
+            0 => "1".to_string(),
+            1 => "true".to_string(),
+            2 => "()".to_string(),
+            3 => "0x01".to_string(),
+            4 => "\"s\"".to_string(),
+            5 => "fees".to_string(),
+            6 => "noSuchName77".to_string(),
+            7 => "(1 + 2)".to_string(),
+            _ => foreign.to_string(),
+        })
+        .collect();
+    format!("{name}({})", args.join(", "))
+}
+
+
 /// names of other symbol kinds present in the program: (kind, name)
 fn foreign_names(p: &Program) -> Vec<(&'static str, String)> {
     let mut v: Vec<(&'static str, String)> = vec![("undefined", "noSuchName77".into()), ("function", "tip_slot".into()), ("function", "min_utxo".into()), ("builtin-asset", "Ada".into()), ("keyword", "fees".into())];
@@ -421,6 +448,10 @@ pub fn mutate_semantic(p: &mut Program, rng: &mut Rng) -> Option<String> {
                 E::Index(_, i) => {
                     **i = E::Hex(vec![1, 2]);
                     "index-with-bytes".into()
+                }
+                E::TipSlot | E::SlotToTime(_) | E::TimeToSlot(_) | E::Concat(..) if (pick >> 9) % 2 == 0 => {
+                    *e = E::Raw(random_builtin_call(pick >> 10, &fname));
+                    "builtin-call-with-random-arguments".into()
                 }
                 E::TipSlot => {
                     *e = E::Raw("tip_slot(1)".into());
